@@ -136,7 +136,18 @@ def run_nndvi(p, script, seed=0):
     def counters():
         return {"total": int(det.total_batches), "since": int(det.batches_since_reset), "state": st(det.drift_state)}
 
+    from .core import Neighbour
+    dim = len(script[0][1][0])
+    nbd = NNDVI(k_nn=2, sampling_times=5, alpha=0.2)
+    nbd.set_reference(np.array([[float((5 * i + 3 * j) % 7) for j in range(dim)] for i in range(9)]))
+    nbc = [0]
+
+    def nfeed(o, u):
+        nbc[0] += 1
+        o.update(np.array([[float(int(u * 991 * (i + 2) * (j + 3)) % 9 + 30 * (nbc[0] % 2)) for j in range(dim)] for i in range(8)]))
+    nb = Neighbour(nbd, nfeed, seed)       # a second NNDVI alive next to the observed one, on unrelated batches
     for t, s in enumerate(script):
+        nb.step()
         np.random.seed((seed * 7919 + t) % (2 ** 32))
         if s[0] == "set_reference":
             det.set_reference(feeder.batch(to_det(s[1])))
